@@ -1,6 +1,9 @@
 import DtnVerif.Drv.Basic
 import DtnVerif.Drv.Tcpcl
 import DtnVerif.Drv.TcpclEp
+import DtnVerif.Drv.Agent
+import DtnVerif.Drv.Sec
+import DtnVerif.Drv.Frag
 namespace DtnVerif
 namespace Drv
 
@@ -8,7 +11,10 @@ namespace Drv
 def handlers : List Handler := [
   basicHandler,
   tcpclCodecHandler,
-  tcpclEpHandler
+  tcpclEpHandler,
+  agentHandler,
+  secHandler,
+  fragHandler
 ]
 
 end Drv
